@@ -524,15 +524,19 @@ func (ng *nestGen) leaf() sym {
 	}
 }
 
-var junkTags = []string{"if x", "endif", "for i in a", "endfor", "else", "elsif x", "when 1", "endcase", "endunless", "comment", "raw", "endcapture", "endtablerow", "assign y = 1", "unknown"}
+var junkTags = []string{"if x", "endif", "for i in a", "endfor", "else", "elsif x", "when 1", "endcase", "endunless", "comment", "raw", "endcapture", "endtablerow", "assign y = 1", "unknown",
+	"endcomment", "endraw"} // the OTHER lexical block's end tag is ordinary interior too
 
 // junk: an arbitrary token soup (for comment/raw interiors) that does not contain `forbidden`
 func (ng *nestGen) junk(forbidden string) []sym {
 	var out []sym
 	for n := ng.g.Intn(5); n > 0; n-- {
-		switch ng.g.Intn(4) {
+		switch ng.g.Intn(5) {
 		case 0:
 			out = append(out, sym{kind: kLeaf, leaf: 't', src: "t"})
+		case 4:
+			// an opening delimiter that is not closed inside the interior: bytes like any other (the interior is lexical)
+			out = append(out, sym{kind: kLeaf, leaf: 'j', src: ng.g.Pick([]string{"{{ ", "{% q ", "{{", "{%- "})}) // 'j': not a text that withMarkers renames
 		case 1:
 			a := ng.g.Pick([]string{"x", "|", "a b", "a.b | upcase", "1"})
 			out = append(out, sym{kind: kLeaf, leaf: 'o', src: "{{" + a + "}}", args: a})
@@ -605,6 +609,15 @@ func (ng *nestGen) chain(depth int) []sym {
 		out = append(out, tagSym(c, ng.tag(clauseSrc[c])), ng.leaf())
 	}
 	return append(out, tagSym("end"+b, ng.tag("end"+b)))
+}
+
+func hasJunkOpener(seq []sym) bool {
+	for _, s := range seq {
+		if s.kind == kLeaf && s.leaf == 'j' {
+			return true
+		}
+	}
+	return false
 }
 
 // neighbours: one-edit variants (delete / duplicate / swap with the next tag) at tag positions
@@ -757,6 +770,10 @@ func parseStream(r *Run) {
 			if i%10 == 9 {
 				alt := strings.NewReplacer("{{", "<<", "}}", ">>", "{%", "<%", "%}", "%>").Replace(src)
 				emitSrc(altDelims, alt, nil, false, kind+"-altdelims", true)
+			} else if k > 0 && hasJunkOpener(ms) {
+				// an edit may move an unclosed opening delimiter out of its raw/comment interior, where it is no longer
+				// bytes but the start of a token: the symbol sequence does not describe such a source (model comparison only)
+				emitSrc(nil, src, nil, false, kind+"-exposed-opener", true)
 			} else {
 				emitSrc(nil, src, ms, k == 0, kind, true) // an edit may expose junk: no render reference
 			}
